@@ -30,8 +30,9 @@ fn c03_layout_independence() {
     // (a) reverse physical order inside one file, with garbage between blocks
     { cases += 1; let mut d = DataDir::new();
       for h in (0..6u64).rev() { let gl = rng.below(40) as usize; let g = rng.bytes(gl); let off = d.put_block(0, 0xd9b4bef9, &chain[h as usize].ser(), &g);
-          d.recs.push(IndexRec { hash: chain[h as usize].hash(), version: 1, height: h, status: ST_ACTIVE, ntx: 1, file: 0, offset: off, header: None }); }
-      d.write(); cmp_delivery(suite, "C03:block_comes_from_file_and_offset_of_its_index_record", "reverse order + garbage gaps", fetch_all(&d, "bitcoin", 6, false), &want); }
+          // (blocks with data but without undo data -- every genesis block, a freshly connected tip -- have no undo position)
+          d.recs.push(IndexRec { hash: chain[h as usize].hash(), version: 1, height: h, status: if h % 2 == 0 { 5 | 8 } else { ST_ACTIVE }, ntx: 1, file: 0, offset: off, header: None }); }
+      d.write(); cmp_delivery(suite, "C03:block_comes_from_file_and_offset_of_its_index_record", "reverse order + garbage gaps, statuses 13 (no undo data) and 29", fetch_all(&d, "bitcoin", 6, false), &want); }
     // (b) interleaved over three files with large numbers and different name padding
     { cases += 1; let mut d = DataDir::new();
       let files = [3u64, 70000, 123456789];
@@ -49,10 +50,12 @@ fn c03_layout_independence() {
       for n in ["notes.txt", "blk.dat", "xblk00000.dat", "00007.dat", "blk00000.dat.bak", "rev00000.dat", "blkblk1.dat", "blk00001.dat.dat"] {
           std::fs::write(d.path().join(n), foreign[0].ser()).unwrap();
       }
+      { let mut rec = 0xd9b4bef9u32.to_le_bytes().to_vec(); let raw = foreign[1].ser(); rec.extend_from_slice(&(raw.len() as u32).to_le_bytes()); rec.extend_from_slice(&raw);
+        std::fs::write(d.path().join("blk00007.dat"), &rec).unwrap(); std::fs::write(d.path().join("blk12345.dat"), &rec).unwrap(); }   // well-formed blk files no record names
       std::fs::create_dir(d.path().join("blk99999.dat")).unwrap();                                         // a directory with a blk name
       let _ = std::os::unix::fs::symlink(d.path().join("gone-target"), d.path().join("stale-link"));        // dangling symlink
       let _ = std::os::unix::fs::symlink(d.path().join("notes.txt"), d.path().join("link-to-notes"));      // healthy symlink to a foreign file
-      cmp_delivery(suite, "C03:foreign_keys_and_files_are_ignored", "unindexed blocks, keys f/l/F/R/a/c, foreign files, a directory named blk99999.dat, dangling and healthy symlinks", fetch_all(&d, "bitcoin", 6, false), &want); }
+      cmp_delivery(suite, "C03:foreign_keys_and_files_are_ignored", "unindexed blocks, keys f/l/F/R/a/c, foreign files, blk00007.dat / blk12345.dat named by no record, a directory named blk99999.dat, dangling and healthy symlinks", fetch_all(&d, "bitcoin", 6, false), &want); }
     // (d) wide varints: file numbers / offsets / heights that need 2..5 varint bytes (heights up to millions)
     { cases += 1; let mut d = DataDir::new();
       let base_h = 3_000_000u64;
@@ -273,7 +276,20 @@ fn c09_bitcoin_genesis_accepted() {
     d.write();
     let r = fetch(d.path(), "bitcoin", 0, None, true, &[0]);
     check(matches!(&r, Ok(v) if matches!(v[0], Ok(Some(_)))), suite, "C09:published_genesis_accepted", "bitcoin genesis block", &format!("{:?}", r.as_ref().map(|v| v[0].is_ok())), "Ok");
-    finish(suite, 1);
+    // the genesis block is a processed block like any other: a changed transaction byte under the intact (published) header
+    let mut cases = 1;
+    for pos in [90usize, 125, 140, 200, 210, 281] {
+        cases += 1;
+        let mut m = raw.clone(); m[pos] ^= 0x04;
+        let mut d = DataDir::new();
+        let off = d.put_block(0, 0xd9b4bef9, &m, &[]);
+        d.recs.push(IndexRec { hash: sha256d_of(&raw[..80]), version: 1, height: 0, status: 5 | 8, ntx: 1, file: 0, offset: off, header: None });
+        d.write();
+        let r = fetch(d.path(), "bitcoin", 0, None, true, &[0]);
+        let rejected = match &r { Ok(v) => v[0].is_err(), Err(_) => true };
+        check(rejected, suite, "C09:verify_rejects_changed_block", &format!("bitcoin genesis with bit 2 of byte {} (coinbase transaction) flipped, header intact, --verify", pos), "accepted", "Err at height 0");
+    }
+    finish(suite, cases);
 }
 
 /// C11 (bounded: keys of length 1..=9, 16, 64, all-zero, the 6-block layouts of C03): an XOR-obfuscated directory
